@@ -67,4 +67,29 @@ def jobs():
                       tier="quick" if n <= 6 else "thorough", timeout=1500, mem_gb=16,
                       desc="coap_handle_dgram: dispatch iff well-formed (reference), at most one empty RST otherwise; %d-byte input" % n,
                       bounds={"n": n}))
+    # debug-level walk: real coap_show_pdu (coap_debug.c) on exact-size PDUs; logging primitives come from env.c
+    rb_dbg = ["coap_log_impl", "coap_get_log_level", "coap_set_log_level"]
+    units_dbg = UNITS_ACC + ["coap_debug.c"]
+    uw_dbg = {"strlen.0": 40}
+    for fn, k in (("print_readable.0", 12), ("print_content_format.0", 64), ("msg_option_string.0", 64), ("msg_option_string.1", 64),
+                  ("msg_option_string.2", 64), ("msg_option_string.3", 64), ("msg_option_string.4", 64)):
+        uw_dbg[fn] = k                                               # name tables of coap_debug.c: constant sizes < 64
+        uw_dbg["__CPROVER_file_local_coap_debug_c_" + fn] = k
+    for n in range(4, 5):     # n >= 5 (symbolic option number x name tables x per-option printers): SAT out of memory at 16 GB
+        js.append(Job("show-pdu@udp-n%02d" % n, "C02/c02d.c", "c02_show_pdu", units_dbg, extra_src=EXTRA, unit_defines=CUT,
+                      defines=["N=%d" % n], unwind=n + 2, unwindset=uw_dbg, termination=True, group="show-pdu", remove_bodies=rb_dbg,
+                      tier="quick" if n <= 6 else "thorough", timeout=1500, mem_gb=16, est_gb=2 + n / 2.0,
+                      desc="coap_show_pdu (debug-level walk) on every accepted %d-byte UDP message, exact-size PDU" % n, bounds={"n": n}))
+    # the option printers with their own value parsing, concrete layout, value bytes symbolic, every value length 0..L
+    for num, name, minlen, maxlen in ((9, "oscore", 0, 8), (23, "block2", 0, 3), (27, "block1", 0, 3), (12, "content-format", 0, 2), (17, "accept", 0, 2),
+                                      (7, "uri-port", 0, 2), (6, "observe", 0, 3), (4, "etag", 1, 4), (258, "no-response", 0, 1), (292, "rtag", 0, 3), (11, "uri-path", 0, 3),
+                                      (16, "hop-limit", 1, 1), (60, "size1", 0, 4), (252, "echo", 1, 3), (65000, "unknown", 0, 3)):
+        for ln in range(minlen, maxlen + 1):
+            for payload in ((0, 2) if ln == maxlen else (0,)):
+                js.append(Job("show-option@%s-len%d%s" % (name, ln, "-payload" if payload else ""), "C02/c02d.c", "c02_show_pdu", units_dbg, extra_src=EXTRA, unit_defines=CUT,
+                              defines=["OPTNUM=%d" % num, "OPTLEN=%d" % ln, "PAYLOAD=%d" % payload], unwind=12, unwindset=uw_dbg, termination=True,
+                              group="show-option@" + name, remove_bodies=rb_dbg, timeout=900, est_gb=2,
+                              tier="quick" if (num in (9, 23, 12, 4, 11) or ln == maxlen) else "thorough",
+                              desc="coap_show_pdu on a message whose %s option has %d symbolic value bytes (exact-size PDU)" % (name, ln),
+                              bounds={"option": num, "value_length": ln, "payload": payload}))
     return js
